@@ -41,6 +41,11 @@ func runC07(w *World, r *Report) {
 	c07PatchNeedsOriginal(w, r)
 	c07Stamped(w, r, ef)
 	c07DeleteProv(w, r, ef)
+	r.Rule("C07/LOOKUP-IDENTITY", "every lookup of a live object (resource.Helper.Get) in pkg/action and pkg/kube uses the Namespace and Name of the resource.Info it belongs to", 5)
+	c07LookupIdentity(w, r, "C07/LOOKUP-IDENTITY")
+	c07StampWins(w, r)
+	r.Rule("C07/CREATE-ERROR-KEPT", "a non-nil error of the cluster create (resource.Helper.Create in pkg/kube) is handed back: no classification of it (AlreadyExists, …) leads to a return that reports something else", 1)
+	c07CreateErrorKept(w, r, "C07/CREATE-ERROR-KEPT")
 }
 
 func lenZeroBypassEdges(fn *ssa.Function, list ssa.Value) []Edge {
@@ -745,5 +750,239 @@ func c07Preflight(w *World, r *Report) {
 		}
 		r.Check(okAbsent && nLookup > 0, "C07/PREFLIGHT", name+"/absent-only-on-not-found", w.Pos(outer.Pos()), "a failed lookup passes as 'absent' only when the API says not-found", "a lookup that failed for another reason than not-found (forbidden, timeout) at "+whyAbsent+" lets the resource pass as absent: the check is skipped for an object that exists")
 		r.Check(mutates == "", "C07/PREFLIGHT", name+"/read-only", w.Pos(outer.Pos()), "the pre-flight does not refresh the infos it inspects", "the pre-flight overwrites the inspected info with the live object (at "+mutates+"): the object sent to the cluster afterwards is no longer the manifest's")
+	}
+}
+
+// c07LookupIdentity: an object is looked up in the cluster under the namespace and name of the
+// resource.Info it was built from (a chart resource may carry its own metadata.namespace; the release
+// namespace is only the default that the builder has already applied to the Info).
+func c07LookupIdentity(w *World, r *Report, rule string) {
+	n := 0
+	seen := map[string]int{}
+	var fieldOfInfo func(v ssa.Value, field string, d int) (ssa.Value, bool)
+	fieldOfInfo = func(v ssa.Value, field string, d int) (ssa.Value, bool) {
+		v = stripConv(v)
+		switch x := v.(type) {
+		case *ssa.UnOp:
+			if fa, ok := x.X.(*ssa.FieldAddr); ok && x.Op == token.MUL {
+				if _, t, f := fieldNameOf(fa); t == "Info" && f == field {
+					return fa.X, true
+				}
+			}
+		case *ssa.Parameter:
+			// a helper that did not exist on the reference tree: every caller must pass the Info's field
+			fn := x.Parent()
+			if d > 2 || fn == nil || !isNewFunc(fn) {
+				return nil, false
+			}
+			idx := paramIndex(fn, x)
+			var holder ssa.Value
+			calls := 0
+			for _, cf := range w.HelmFuncs() {
+				for _, c := range callInstrs(cf) {
+					if f, _ := calleeOf(c.Common()); f == nil || origin(f) != fn || idx >= len(c.Common().Args) {
+						continue
+					}
+					calls++
+					h, ok := fieldOfInfo(c.Common().Args[idx], field, d+1)
+					if !ok {
+						return nil, false
+					}
+					holder = h
+				}
+			}
+			return holder, calls > 0
+		}
+		return nil, false
+	}
+	for _, rel := range []string{"pkg/action", "pkg/kube"} {
+		for _, fn := range w.FuncsIn(rel) {
+			for _, c := range callInstrs(fn) {
+				f, _ := calleeOf(c.Common())
+				if f == nil || FuncName(f) != "(*k8s.io/cli-runtime/pkg/resource.Helper).Get" {
+					continue
+				}
+				n++
+				key := siteKey(Site{fn, c, posOf(c)})
+				seen[key]++
+				if seen[key] > 1 {
+					key = fmt.Sprintf("%s@%d", key, seen[key])
+				}
+				args := c.Common().Args // receiver, namespace, name
+				_, okNS := fieldOfInfo(args[1], "Namespace", 0)
+				_, okName := fieldOfInfo(args[2], "Name", 0)
+				r.Check(okNS && okName, rule, key, w.InstrPos(c), "the live object is fetched under the Info's own Namespace and Name", "the live object is fetched under a namespace or name that is not the resource's own (Info.Namespace / Info.Name): for a resource with its own metadata.namespace the pre-flight or the update looks in the wrong place")
+			}
+		}
+	}
+	if n == 0 {
+		r.Unk(rule, "no-site", "-", "no resource.Helper.Get call found in pkg/action or pkg/kube")
+	}
+}
+
+// c07StampWins: where Helm's ownership labels/annotations are merged with the ones a rendered object
+// already carries, Helm's are in the winning position of the merge (a template that hard-codes a foreign
+// managed-by label is still stamped).
+func c07StampWins(w *World, r *Report) {
+	r.Rule("C07/STAMP-WINS", "in the metadata stamping helpers the object's existing labels/annotations are never in the winning slot of the two-map merge: the stamping values overwrite them", 2)
+	mg := w.Fn("pkg/action", "mergeStrStrMaps")
+	if mg == nil {
+		r.Unk("C07/STAMP-WINS", "anchor", "-", "mergeStrStrMaps not found")
+		return
+	}
+	r.Fn(FuncName(mg))
+	// the parameter copied last wins
+	copyOf := map[int]ssa.Instruction{}
+	for _, b := range mg.Blocks {
+		for _, in := range b.Instrs {
+			switch x := in.(type) {
+			case *ssa.Range:
+				if p, ok := stripConv(x.X).(*ssa.Parameter); ok {
+					copyOf[paramIndex(mg, p)] = x
+				}
+			case ssa.CallInstruction:
+				if f, _ := calleeOf(x.Common()); f != nil && fnPkgPath(f) == "maps" && genericName(f) == "Copy" && len(x.Common().Args) == 2 {
+					if p, ok := stripConv(x.Common().Args[1]).(*ssa.Parameter); ok {
+						copyOf[paramIndex(mg, p)] = x
+					}
+				}
+			}
+		}
+	}
+	g := FullGraph(mg)
+	winner := -1
+	if len(copyOf) == 2 {
+		for i, ci := range copyOf {
+			last := true
+			for j, cj := range copyOf {
+				if i != j && !g.DominatesInstr(cj, posOf(ci)) {
+					last = false
+				}
+			}
+			if last {
+				winner = i
+			}
+		}
+	}
+	if winner < 0 {
+		r.Unk("C07/STAMP-WINS", "merge-order", w.Pos(mg.Pos()), "the two-map merge does not copy its two parameters one after the other: the winning side is not decided")
+		return
+	}
+	r.OK("C07/STAMP-WINS", "merge-order", w.Pos(mg.Pos()), fmt.Sprintf("parameter %d is copied last and wins", winner))
+	n := 0
+	for _, fn := range w.FuncsIn("pkg/action") {
+		for _, c := range callInstrs(fn) {
+			f, _ := calleeOf(c.Common())
+			if f == nil || origin(f) != mg {
+				continue
+			}
+			n++
+			fromObject := false
+			backSlice(c.Common().Args[winner], func(v ssa.Value) bool {
+				if cc, ok := v.(*ssa.Call); ok {
+					if cc.Call.IsInvoke() && (cc.Call.Method.Name() == "Labels" || cc.Call.Method.Name() == "Annotations") {
+						fromObject = true
+					}
+					if cf, _ := calleeOf(cc.Common()); cf != nil && (cf.Name() == "GetLabels" || cf.Name() == "GetAnnotations" || cf.Name() == "Labels" || cf.Name() == "Annotations") {
+						fromObject = true
+					}
+					return true
+				}
+				return false
+			})
+			r.Check(!fromObject, "C07/STAMP-WINS", FuncName(fn)+"/winning-slot", w.InstrPos(c), "the stamping values are in the winning slot", "the object's existing labels/annotations are in the winning slot of the merge: a rendered object that already carries a foreign managed-by label or release annotation is not stamped, yet recorded as part of the release")
+		}
+	}
+	if n == 0 {
+		r.Unk("C07/STAMP-WINS", "no-site", "-", "no caller of the two-map merge in pkg/action")
+	}
+}
+
+// c07CreateErrorKept: the error of a cluster create is handed back whenever it is non-nil. In
+// particular "already exists" is an error: it is what stops Helm when somebody else creates the same
+// object between the ownership pre-flight and Helm's own create.
+func c07CreateErrorKept(w *World, r *Report, rule string) {
+	n := 0
+	for _, fn := range w.FuncsIn("pkg/kube") {
+		for _, c := range callInstrs(fn) {
+			f, _ := calleeOf(c.Common())
+			if f == nil || FuncName(f) != "(*k8s.io/cli-runtime/pkg/resource.Helper).Create" {
+				continue
+			}
+			n++
+			r.Fn(FuncName(fn))
+			e := errResult(c)
+			key := siteKey(Site{fn, c, posOf(c)})
+			if e == nil || e.Referrers() == nil {
+				r.Bad(rule, key, w.InstrPos(c), "the error of the cluster create is dropped")
+				continue
+			}
+			g := FullGraph(fn)
+			// direct nil tests of e (not of a phi it flows into)
+			var okDirect []Edge
+			for _, rf := range *e.Referrers() {
+				if bo, ok := rf.(*ssa.BinOp); ok && (bo.Op == token.EQL || bo.Op == token.NEQ) && (isNilConst(bo.X) || isNilConst(bo.Y)) {
+					for _, ce := range condEdges(bo) {
+						if ce.truth == (bo.Op == token.EQL) {
+							okDirect = append(okDirect, ce.Edge)
+						}
+					}
+				}
+			}
+			derived := func(v ssa.Value) bool {
+				only := true
+				backSlice(v, func(x ssa.Value) bool {
+					switch y := x.(type) {
+					case *ssa.Phi:
+						return false
+					case *ssa.Call:
+						if _, ok := nilPreservingArg(y); ok {
+							return false
+						}
+					}
+					if x == e {
+						return true
+					}
+					if isNilConst(x) {
+						return true
+					}
+					only = false
+					return true
+				})
+				return only
+			}
+			bad := ""
+			for _, rf := range *e.Referrers() {
+				cls, ok := rf.(*ssa.Call)
+				if !ok || !isBoolType(cls.Type()) {
+					continue
+				}
+				for _, ce := range condEdges(cls) {
+					if !ce.truth {
+						continue
+					}
+					for _, b := range fn.Blocks {
+						if len(b.Instrs) == 0 {
+							continue
+						}
+						ret, isRet := b.Instrs[len(b.Instrs)-1].(*ssa.Return)
+						if !isRet || len(ret.Results) == 0 {
+							continue
+						}
+						ev := ret.Results[len(ret.Results)-1]
+						if !isErrorType(ev.Type()) || derived(ev) {
+							continue
+						}
+						if ex, _ := g.PathExists(IPos{ce.To(), -1}, posOf(ret), Avoid{StartPrev: ce.From}.withEdges(okDirect...)); ex {
+							bad = w.InstrPos(cls)
+						}
+					}
+				}
+			}
+			r.Check(bad == "", rule, key, w.InstrPos(c), "a non-nil error of the cluster create is returned as it is (only tested for nil, wrapped or returned)", "the error of the cluster create is classified at "+bad+" and a return that does not hand it back is reachable from there: a create rejected with that error (e.g. AlreadyExists for an object somebody else has just created) is reported as success")
+		}
+	}
+	if n == 0 {
+		r.Unk(rule, "no-site", "-", "no resource.Helper.Create call in pkg/kube")
 	}
 }
